@@ -24,6 +24,7 @@ Act == \/ IsEvent("Connect") /\ Connect(E.c)
        \/ IsEvent("Auth") /\ Auth(E.c, E.x)
        \/ IsEvent("FollowUp") /\ FollowUp(E.c)
        \/ IsEvent("AuthRace") /\ AuthRace(E.c)
+       \/ IsEvent("AuthRaceRm") /\ AuthRaceRm(E.c, E.x)
        \/ IsEvent("Chat") /\ Chat(E.c)
        \/ IsEvent("Beacon") /\ Beacon(E.c)
        \/ IsEvent("Register") /\ Register(E.c)
